@@ -269,6 +269,10 @@ def apply_cond(fx, c):
             fx.some.add(key(t))
         if is_call(t) and t[1] in LEN_Q and positive and pat.strip().isdigit():
             fx.raise_to(key(t[2][0]), int(pat.strip()))
+        if positive and is_call(t, "core::slice::<impl [T]>::get") and len(t[2]) == 2 and isinstance(t[2][1], tuple) and t[2][1][0] == "ctor" and \
+                str(t[2][1][1]).endswith("RangeTo") and isinstance(t[2][1][2], dict) and "end" in t[2][1][2] and ("Some(" in pat or pat.endswith("Some")):
+            # `data.get(..n)` is Some exactly when n <= data.len(): the checked form of the bounds test
+            fx.raise_to(key(t[2][0]), 0, key(strip(t[2][1][2]["end"])))
 
 
 def replay(run, F, body, p, T, counts):
